@@ -243,6 +243,8 @@ func (c *ChunkComposer) RunLoop(reader io.Reader, cb OnCompleteMessage) error {
 						return base.NewErrRtmpShortBuffer(int(aggregateStream.header.MsgLen), int(stream.msg.Len()), "parse rtmp aggregate sub message body")
 					}
 					aggregateStream.msg.buff = nazabytes.NewBufferRefBytes(stream.msg.buff.Peek(int(aggregateStream.header.MsgLen)))
+				// 注意，NewBufferRefBytes 得到的Buffer可读长度为0，需要把引用的内存块标记为已写入，否则回调给上层的子消息payload为空
+				aggregateStream.msg.Flush(aggregateStream.header.MsgLen)
 					stream.msg.Skip(aggregateStream.header.MsgLen)
 
 					// sub message回调给上层
